@@ -13,6 +13,7 @@ import (
 	"github.com/twpayne/go-geom/encoding/igc"
 
 	"verifharness/fw"
+	"verifharness/model"
 )
 
 // C19 - IGC decoding is total; encode-then-decode keeps a track to format resolution.
@@ -341,7 +342,34 @@ func c19RoundTrip(c *fw.Ctx, fixes []fix, layout geom.Layout) {
 		}
 	}
 	c.Count("tracks_read_back")
+	// the same through one bytes.Buffer the worker keeps for all its tracks, the way a
+	// pipe is used: the encoder writes into it, Read takes the stream out of it again
+	if c.R.Chance(1, 3) {
+		var t2 *igc.T
+		var e2 error
+		if c.Guard("panic", func() {
+			e2 = igc.NewEncoder(&c19Pipe, igc.A("XVF001 verif")).Encode(ls)
+			if e2 == nil {
+				t2, e2 = igc.Read(&c19Pipe)
+			}
+		}) {
+			return
+		}
+		c.Eval(1)
+		c.Count("tracks_sent_through_the_kept_buffer")
+		if t2 == nil || t2.LineString == nil || !model.BitsEq(t2.LineString.FlatCoords(), got) {
+			n2 := -1
+			if t2 != nil && t2.LineString != nil {
+				n2 = t2.LineString.NumCoords()
+			}
+			c.Fail("history-dependent", "the track written into and read from a buffer used for earlier tracks reads back with %d fixes (err=%v); read from its own bytes it has %d", n2, e2, len(got)/5)
+			return
+		}
+	}
 }
+
+// c19Pipe carries every track of a worker process from an encoder to igc.Read.
+var c19Pipe bytes.Buffer
 
 func c19Pos(r *fw.Rand) (lon, lat float64) {
 	switch r.Intn(8) {
@@ -422,6 +450,23 @@ func c19Tracks(c *fw.Ctx, idx int) {
 		// steps of about a day (the time of day goes slightly backwards or stays
 		// the same while the date advances) and of several days
 		steps = []int64{86399, 86400, 86401, 86340, 86341, 86399 - 58, 86400 - 3600, 86400 + 59, 2*86400 - 1, 2 * 86400, 3*86400 - 30, 1}
+	}
+	if r.Chance(1, 4) {
+		// whole days, weeks and months between fixes, starting shortly before a year or
+		// month ends one time in two: the date changes by any amount from record to record
+		steps = steps[:0]
+		for k := 0; k < 12; k++ {
+			steps = append(steps, int64(r.Range(1, 40))*86400+int64(r.Range(-2, 2)))
+		}
+		steps = append(steps, 7*86400, 7*86400, 31*86400, 365*86400, 366*86400, 1)
+		if r.Bool() {
+			y := r.Range(1970, 2068)
+			start = time.Date(y, 12, 31, 12, 0, 0, 0, time.UTC).Unix() - int64(r.Intn(13))*86400 - int64(r.Intn(40000))
+			if r.Chance(1, 3) {
+				start = time.Date(y, time.Month(r.Range(1, 12)), 28, 12, 0, 0, 0, time.UTC).Unix() - int64(r.Intn(10))*86400
+			}
+		}
+		c.Count("tracks_with_steps_of_whole_days_and_weeks")
 	}
 	tt := start
 	var fixes []fix
